@@ -32,6 +32,9 @@ def main():
     elif pid == 'C18':
         import pm
         pm.main(pid, 'quick' if tier == 'replay' else tier, rp)
+    elif pid == 'C13':
+        import server
+        server.main(pid, 'quick' if tier == 'replay' else tier, rp)
     elif pid == 'C12':
         import after
         after.main(pid, 'quick' if tier == 'replay' else tier, rp)
